@@ -11,7 +11,7 @@ import (
 )
 
 var c17Floor = []string{"after-rejected", "after-other-reading", "comment", "opts.none", "opts.W", "opts.P", "opts.I", "opts.WP", "opts.WI", "opts.PI", "opts.WPI", "spell.dq", "spell.brackets", "spell.neutral-under-option",
-	"lit.dquote", "lit.squote", "lit.backtick", "lit.backslash", "lit.bracket", "ident.dquote-in-backtick", "ident.bracket", "ident.space", "array.nested", "array.empty", "array.with-bracket-literal", "array.glued", "ident.backslash-end", "path.bracket", "where", "shape.derived", "shape.cte", "shape.union", "shape.with-shadow", "shape.with-body"}
+	"lit.dquote", "lit.squote", "lit.backtick", "lit.backslash", "lit.bracket", "ident.dquote-in-backtick", "ident.bracket", "ident.space", "array.nested", "array.empty", "array.with-bracket-literal", "array.glued", "ident.backslash-end", "ident.dquote-doubled", "ident.backtick-inside", "path.bracket", "where", "shape.derived", "shape.cte", "shape.union", "shape.with-shadow", "shape.with-body"}
 
 func init() {
 	fw.Register(&fw.Prop{
@@ -153,6 +153,16 @@ func c17Run(c *fw.Case) {
 			s += "\"q"
 			bt = true
 			feats = append(feats, "ident.dquote-in-backtick")
+		}
+		if !bt && allowDQ && (force == "ident.dquote-doubled" || c.Chance(0.08)) {
+			// a double quote inside the name: doubled under the double-quoted spelling
+			s += "\"d"
+			feats = append(feats, "ident.dquote-doubled")
+		}
+		if allowDQ && (force == "ident.backtick-inside" || c.Chance(0.06)) {
+			// a back-tick inside the name: doubled under the back-ticked spelling
+			s += "`t"
+			feats = append(feats, "ident.backtick-inside")
 		}
 		if allowDQ && (force == "ident.backslash-end" || c.Chance(0.08)) {
 			// a back-ticked identifier that ends in a backslash (no escapes there)
